@@ -209,12 +209,8 @@ def run(ctx):
     # ---- Y3 -----------------------------------------------------------------------
     c01.t2(ctx, R)
     c01.t5(ctx, R)
-    c01.g2(ctx, R)
-    c01.g4(ctx, R)
-    c01.g5(ctx, R)
-    c01.g6(ctx, R)
-    c03.g7(ctx, R)
-    c03.g9(ctx, R)
+    from .geval import with_g11
+    with_g11(ctx, R, [c01.g2, c01.g4, c01.g5, c01.g6, c03.g7, c03.g9])
     # ---- G10 ----------------------------------------------------------------------
     ctx.rule("G10", "a command is closed by `;` only when every required argument of its definition was given")
     from sa.util import fact_call
